@@ -226,11 +226,18 @@ package utils
 //@   ensures [numeric-text] implies(ghost(0, "tsnum") == 1, result1 == nil && result0 == msOfEpoch(ghost(0, "tsraw")))
 //@ end
 
+// reads the clock; writes nothing (frame PROVED)
+//@ func GetCurrentTimeInMs
+//@   props C16
+//@   pure
+//@ end
+
 // Number path of the JSON extractor: must agree with the string path.
 //@ func ExtractTimeStamp
 //@   props C16
 //@   mode int
 //@   requires timestampKey != nil
+//@   modifies ghost(0, "etsnum"), ghost(0, "etsraw"), ghost(0, "tsnum"), ghost(0, "tsraw")
 //@   ghostinit ghost(0, "etsnum") == 0 && ghost(0, "tsnum") == 0
 //@   site call IsTimeInNano #1:
 //@     ghostset ghost(0, "etsraw") = ts_millis
